@@ -26,8 +26,9 @@ type ErrSite struct {
 
 // reviewed exceptions: (enclosing top-level function, callee) -> reason
 var errDropAllowed = map[string]string{
-	"internal/cmd.NewBuildCmd|github.com/fatih/color.(Color).Fprint":             "best-effort printing of the error list to the report writer; the command's exit status is already decided by the returned error",
-	"internal/cmd.NewBuildCmd|github.com/fatih/color.(Color).Fprintln":           "best-effort printing of the error list to the report writer",
+	// package-wide (any function of package internal/cmd, so that the printing may live in a helper of RunE)
+	"internal/cmd.*|github.com/fatih/color.(Color).Fprint":                       "best-effort printing of the error list to the report writer; the command's exit status is already decided by the returned error",
+	"internal/cmd.*|github.com/fatih/color.(Color).Fprintln":                     "best-effort printing of the error list to the report writer",
 	"internal/cmd.NewBuildCmd|github.com/spf13/pflag.(FlagSet).MarkHidden":       "flag registration",
 	"internal/cmd.NewBuildCmd|github.com/spf13/cobra.(Command).MarkFlagRequired": "fails only for an unknown flag name, which is a literal registered two lines above",
 }
@@ -217,7 +218,13 @@ func ruleE(e *Env, rule string) {
 		case "used":
 			e.R.Hold(rule, s.Key, "enclosing function has no error result; value is used (checked, wrapped or escalated)", s.Pos)
 		case "dropped", "no-flow":
-			if why, ok := errDropAllowed[root+"|"+s.Callee]; ok && s.Status == "dropped" {
+			why, ok := errDropAllowed[root+"|"+s.Callee]
+			if !ok {
+				if i := strings.LastIndex(root, "."); i >= 0 && !strings.Contains(root[:i], "(") {
+					why, ok = errDropAllowed[root[:i]+".*|"+s.Callee]
+				}
+			}
+			if ok && s.Status == "dropped" {
 				e.R.Hold(rule, s.Key, "reviewed exception: "+why, s.Pos)
 				continue
 			}
